@@ -740,7 +740,7 @@ CHECKS = {
         "sub": "c01",
         "level": "exploration",
         "technique": "runtime monitoring: round-trip oracle over generated and exhaustively enumerated values",
-        "rule": "values are drawn from boundary-dense per-type generators (case i of a type is a pure function of (seed, type, i)) plus exhaustively enumerated small domains; a case is non-trivial when the value was encoded, decoded and compared; distinct = distinct hash of (type, encoded bytes) merged exactly across workers, plus enumerated cases (distinct by construction)",
+        "rule": "values are drawn from boundary-dense per-type generators (case i of a type is a pure function of (seed, type, i)) plus exhaustively enumerated small domains; a case is non-trivial when the value was encoded, decoded and compared; distinct = distinct hash of (type, encoded bytes) merged exactly across workers, plus enumerated cases (distinct by construction); every value also through the free functions (decode, decode_with, encode, encode_with, to_vec_with) and Decoder::decode_with; every Token variant (breaks, container / tag heads, indefinite starts included) inside Option / tuple / Vec / array / Result",
         "level_text": "Every one of ~140 concrete instantiations of the built-in impls is driven with boundary-dense generated values (and all values of the 8/16-bit types, bool and char; all 2^32 u32/i32/f32 in the thorough tier) through to_vec + decode under a panic/position monitor with the property's equality as oracle. Exploration is the right level: the value spaces are unbounded, the oracle is exact, and the width boundaries where such codecs break are enumerated rather than sampled.",
         "level_note": "Trusted: the per-type equality in harness/vmain/src/subj.rs and the generators' coverage of boundaries; HashSet/HashMap iteration order varies per process, which only permutes encodings.",
         "assumptions": COMMON_ASSUMPTIONS + ["Option<Option<_>>, IPv6 flow-info/scope-id are excluded as the property states; pre-epoch SystemTime and non-UTF-8 paths are generated and must be refused without panic"],
@@ -775,7 +775,7 @@ CHECKS["C05"] = {
     "sub": "c05",
     "level": "exploration",
     "technique": "runtime monitoring: integer accessors vs i128 arithmetic oracle over enumerated (sign, width, argument) triples",
-    "rule": "all (sign, head width, argument) triples with argument < 2^16 at every admissible width, every 2^k+-3 boundary at every width, random 64-bit arguments (and in the thorough tier all 2^32 arguments at the 4- and 8-byte widths) x {u8..i64, int, char, usize/isize, 10 NonZero types, Wrapping, Option, datatype}, plus Int conversions on i128 boundaries; every head is decoded at offset 0 of an exact buffer and again in the middle of a buffer (filler bytes before, trailing bytes after, decoder positioned at the item), same value and same number of bytes consumed required; distinct = enumerated triples + distinct hashed random triples",
+    "rule": "all (sign, head width, argument) triples with argument < 2^16 at every admissible width, every 2^k+-3 boundary at every width, random 64-bit arguments (and in the thorough tier all 2^32 arguments at the 4- and 8-byte widths) x {u8..i64, int, char, usize/isize, 10 NonZero types, Wrapping, Option, datatype}, plus Int conversions on i128 boundaries; every head is decoded at offset 0 of an exact buffer and again in the middle of a buffer (filler bytes before, trailing bytes after, decoder positioned at the item), same value and same number of bytes consumed required; distinct = enumerated triples + distinct hashed random triples; the range constants MIN_INT / MAX_INT against independently obtained range ends",
     "level_text": "The oracle is exact (i128 arithmetic and Rust's own TryFrom range tests), the space below 2^16 and all width boundaries are enumerated completely, and the thorough tier sweeps 2^32 arguments at the two wide head widths, so every comparison/cast in the accessors is exercised on both sides of every boundary.",
     "level_note": "Trusted: refcbor::head for building inputs. usize/isize are 64-bit on this host; 32-bit targets are not executed.",
     "assumptions": COMMON_ASSUMPTIONS,
@@ -795,7 +795,7 @@ CHECKS["C04"] = {
     "sub": "c04",
     "level": "exploration",
     "technique": "runtime monitoring: accessors and typed decodes vs an executable model of each target over reference items; strict-prefix replay",
-    "rule": "items: all trees with <= 3 (quick) / 4 (thorough) nodes over a leaf alphabet with every head width, plus random trees (depth <= 8, non-preferred heads, indefinite containers) and shape-directed items; each item is decoded through ~85 accessors / target types (incl. &CStr / CString with byte strings shaped like C strings: terminator present, missing, doubled, interior NULs) on `encoding ++ suffix` (value, final position, provenance of borrowed slices compared with the model; non-matching targets must fail), and every target that accepted the item is re-run on every strict prefix (must fail with the end-of-input class); distinct = enumerated trees + distinct hashed random encodings",
+    "rule": "items: all trees with <= 3 (quick) / 4 (thorough) nodes over a leaf alphabet with every head width, plus random trees (depth <= 8, non-preferred heads, indefinite containers) and shape-directed items; each item is decoded through ~85 accessors / target types (incl. &CStr / CString with byte strings shaped like C strings: terminator present, missing, doubled, interior NULs) on `encoding ++ suffix` (value, final position, provenance of borrowed slices compared with the model; non-matching targets must fail), and every target that accepted the item is re-run on every strict prefix (must fail with the end-of-input class); distinct = enumerated trees + distinct hashed random encodings; iterator laws include fuse() polled after None, on every item alone and with sibling items behind it",
     "level_text": "The model of every accessor/type over RFC 8949 items is an executable oracle; the small-tree space is enumerated completely with all head-width assignments, which is where shape/width confusions live, and every accepted encoding is cut at every offset. Exploration is the right level: the input space is unbounded and the oracle is exact.",
     "level_note": "Trusted: harness/vmain/src/c04.rs::model (written from the crate documentation) and refcbor. Where the statement is silent (simple() on f4..f7, tuples/unit from indefinite arrays) both an error and the model value are accepted, never another value. 'Well-formed' is read as well-formed and valid UTF-8.",
     "assumptions": COMMON_ASSUMPTIONS,
@@ -826,7 +826,7 @@ CHECKS["C19"] = {
     "sub": "c19",
     "level": "exploration",
     "technique": "runtime monitoring: display() into a length-limited fmt sink under panic/step/allocation monitors; exact rendering vs reference renderer",
-    "rule": "totality: all byte strings <= 2 (quick) / 3 (thorough) bytes, every head with extreme declared lengths alone and nested in 8 contexts, mutated/truncated valid items, deep nesting families; exactness: all small trees, all non-NaN half patterns, random trees; output limit 16*len+256 bytes enforced by the sink; distinct = enumerated + hashed",
+    "rule": "totality: all byte strings <= 2 (quick) / 3 (thorough) bytes, every head with extreme declared lengths alone and nested in 8 contexts, mutated/truncated valid items, deep nesting families; exactness: all small trees, all non-NaN half patterns, random trees; output limit 16*len+256 bytes enforced by the sink; distinct = enumerated + hashed; dense containers of 0..=70, 100, 255..257, 1000, 5000 one-byte items; rendering under 8 format specs (width / precision / fill / sign flags)",
     "level_text": "The size bound and termination are decided deterministically (a sink that refuses output beyond the bound and a step budget on the decoder hook), exact rendering by comparison with an independent renderer of the documented notation.",
     "level_note": "Trusted: refcbor::diag (floats via Rust's {:e}); '[_ ]' vs '[_]' for empty indefinite containers is undocumented and both are accepted.",
     "assumptions": COMMON_ASSUMPTIONS,
@@ -841,7 +841,7 @@ CHECKS["C13"] = {
     "engine": "vmain+vgen",
     "level": "exploration",
     "technique": "runtime monitoring with sanitizers: canary-guarded sinks vs a (capacity, accepted) model; Miri and ASan on the slice writers",
-    "rule": "values of every built-in type from the boundary-dense generators x every capacity 0..=len+1 (sampled for encodings > 200 bytes) plus ArrayIter/MapIter adapters with exact and inexact size hints x {&mut [u8], Cursor<&mut [u8]>, Cursor<Box<[u8]>>, Writer<io::Cursor<&mut [u8]>>, Cursor<[u8; N]> for 10 N, &mut Vec, Writer<Vec>}; plus all sequences of three raw write_all calls with lengths 0..=cap+1 for capacities 0..=12 on every cursor kind; plus values of every derived type of the generated schema crates (see C08) x every capacity into canary-guarded slices; distinct = distinct hashed (type, encoding) x capacities + enumerated raw sequences",
+    "rule": "values of every built-in type from the boundary-dense generators x every capacity 0..=len+1 (sampled for encodings > 200 bytes) plus ArrayIter/MapIter adapters with exact and inexact size hints x {&mut [u8], Cursor<&mut [u8]>, Cursor<Box<[u8]>>, Writer<io::Cursor<&mut [u8]>>, Cursor<[u8; N]> for 10 N, &mut Vec, Writer<Vec>}; plus all sequences of three raw write_all calls with lengths 0..=cap+1 for capacities 0..=12 on every cursor kind; plus values of every derived type of the generated schema crates (see C08) x every capacity into canary-guarded slices; distinct = distinct hashed (type, encoding) x capacities + enumerated raw sequences; single tokens, token vectors and scripts of 1-5 direct Encoder method calls (bare container / tag heads, indefinite starts, breaks, strings, scalars) as values; an io::Write with one transient non-retryable fault at every offset 0..=26, len/2, len-1",
     "level_text": "Every sink sits inside a larger buffer filled with a canary pattern, so an overrun is observed directly; success/failure is compared with the exact rule (fits iff encoding length <= capacity), the bytes left behind with the Vec encoding, the cursor position with the bytes accepted. Raw write sequences are enumerated exhaustively for small capacities. The slice writers additionally run under Miri (both tiers) and ASan (thorough).",
     "level_note": "Trusted: the Vec<u8> encoding as reference (its correctness is C03's subject). Values of derived types (the C08 generators) run the slice-sink experiment at every capacity in the generated schema crates.",
     "assumptions": COMMON_ASSUMPTIONS,
@@ -866,7 +866,7 @@ CHECKS["C14"] = {
     "sub": "c14",
     "level": "fault_enumeration",
     "technique": "runtime monitoring under enumerated faults: scripted io::Read/Write (fragmentation, Interrupted, truncation) vs a framing reference model, with allocation monitor",
-    "rule": "streams: 225 streams of <= 20 bytes (frames with decodable, undecodable and zero-length payloads, hostile prefixes) x every truncation point x compositions of the stream length into read sizes (all 2^(L-1), strided above the per-stream cap) x max_len in {64,3,2}; Interrupted inserted 0/1/2 times before each read (exhaustive for <= 10 reads); random long streams (<= 24 frames, payloads to 6 KiB and now and then up to ~90 KiB, delivered in pieces of 1-13 bytes or around 512 / 4096 / 8192 / 16384 bytes) with random scripts; half of the readers / writers are constructed with a caller-supplied buffer holding stale bytes; writer sequences (incl. values that fail to encode or exceed max_len) into a scripted short-write/Interrupted sink, read back. distinct = enumerated (stream, script, max_len) triples + hashed random streams",
+    "rule": "streams: 225 streams of <= 20 bytes (frames with decodable, undecodable and zero-length payloads, hostile prefixes) x every truncation point x compositions of the stream length into read sizes (all 2^(L-1), strided above the per-stream cap) x max_len in {64,3,2}; Interrupted inserted 0/1/2 times before each read (exhaustive for <= 10 reads); random long streams (<= 24 frames, payloads to 6 KiB and now and then up to ~90 KiB, delivered in pieces of 1-13 bytes or around 512 / 4096 / 8192 / 16384 bytes) with random scripts; half of the readers / writers are constructed with a caller-supplied buffer holding stale bytes; writer sequences (incl. values that fail to encode or exceed max_len) into a scripted short-write/Interrupted sink, read back. distinct = enumerated (stream, script, max_len) triples + hashed random streams; one writer sequence in 50 mixes values of 60 KiB-1.2 MiB with small ones under limits 100 / 512 KiB / 2 MiB",
     "level_text": "Faults (short reads, interrupted calls, truncation at every byte, oversized prefixes) are enumerated rather than sampled for all small streams, and the expected result sequence comes from an independent framing model over the stream bytes alone; the reader's buffer length, largest read request and peak allocation are measured against max_len.",
     "level_note": "Trusted: c14::refframe and refcbor for decoding payloads as Vec<u16>. 4 GiB frames (the writer's `as u32`) are out of reach. After InvalidLen the stream is desynchronised by design; the model stops there.",
     "assumptions": COMMON_ASSUMPTIONS,
@@ -886,7 +886,7 @@ CHECKS["C16"] = {
     "sub": "c16",
     "level": "exploration",
     "technique": "runtime monitoring over systematically enumerated schedules: scripted AsyncWrite + hand-written executor, online prefix monitor on the sink bytes, state-invariant hook",
-    "rule": "schedules = sink outcomes {accept 1/2/all, Pending, transient error, accept 0} and caller decisions {poll again, drop the write future then sync (itself droppable and re-issued)}; exhaustive for single-value writes, all schedules with <= 5 (quick) / 7 (thorough) deviations from two base policies for all value sequences of length 2 and 3 (values include one that fails to encode and ones above max_len; max_len in {64, 2}); seeded random walks over up to 48 values; every writer is constructed over a caller-supplied buffer with stale bytes; distinct by construction / by hash of the choice vector",
+    "rule": "schedules = sink outcomes {accept 1/2/all, Pending, transient error, accept 0} and caller decisions {poll again, drop the write future then sync (itself droppable and re-issued)}; exhaustive for single-value writes, all schedules with <= 5 (quick) / 7 (thorough) deviations from two base policies for all value sequences of length 2 and 3 (values include one that fails to encode and ones above max_len; max_len in {64, 2}); seeded random walks over up to 48 values; every writer is constructed over a caller-supplied buffer with stale bytes; distinct by construction / by hash of the choice vector; one random walk in 64 writes frames of 70-400 KiB",
     "level_text": "The caller follows exactly the documented contract (cancel + sync before the next write); every sink outcome and caller decision is a choice point enumerated by re-execution. The monitor checks after every step that the sink is a prefix of the concatenated frames and equal at quiescence, that write returns the payload length, that idle sync does not touch the sink, that accept-0 yields WriteZero exactly when injected, and through the hook that sink length = completed frames + recorded offset.",
     "level_note": "Trusted: aio.rs (scripted sink, executor). Deviation bounding covers all placements of up to K non-default outcomes.",
     "assumptions": COMMON_ASSUMPTIONS,
@@ -896,7 +896,7 @@ CHECKS["C17"] = {
     "sub": "c17",
     "level": "exploration",
     "technique": "runtime monitoring: bridge output vs an independent reference serde Serializer + reference encoder; round-trip, re-framing and unknown-field replay",
-    "rule": "values of ~50 serde types spanning every Serializer/Deserializer method and every enum representation (external, internal, adjacent, untagged, flatten), from boundary-dense generators; each value is serialised by the bridge and by RefSerializer (bytes must be equal), deserialised back (reference item of the result must be equal, decoder at the end), re-framed with wider heads (same value required) and indefinite containers (same value or error), and with unknown extra fields (arbitrary items) inserted into every struct map (same value required); borrowed &str / &[u8] reaching the visitor through deserialize_any (untagged, internally and adjacently tagged, flatten) must point into the input; strings written through collect_str (lengths on the head edges and 63/64/65, 1000) must be definite text and round-trip; distinct = hash of (type, bytes)",
+    "rule": "values of ~50 serde types spanning every Serializer/Deserializer method and every enum representation (external, internal, adjacent, untagged, flatten), from boundary-dense generators; each value is serialised by the bridge and by RefSerializer (bytes must be equal), deserialised back (reference item of the result must be equal, decoder at the end), re-framed with wider heads (same value required) and indefinite containers (same value or error), and with unknown extra fields (arbitrary items) inserted into every struct map (same value required); borrowed &str / &[u8] reaching the visitor through deserialize_any (untagged, internally and adjacently tagged, flatten) must point into the input; strings written through collect_str (lengths on the head edges and 63/64/65, 1000) must be definite text and round-trip; distinct = hash of (type, bytes); field / variant names of 1..300 bytes on both sides of every head-width boundary; every value also read through a Deserializer reused across buffers (decoder_mut)",
     "level_text": "The documented representation is made executable as an independent serde Serializer that builds reference items; byte equality with the reference encoder decides representation and well-formedness at once, and comparison of reference items decides round-trip equality bit-exactly (floats included). Exploration over generated values of a type family that reaches every bridge method is the right level.",
     "level_note": "Trusted: harness/vmain/src/refser.rs (written from the bridge documentation), refcbor. Seven shapes that cannot round-trip through serde's content buffering are listed as open known findings (one signature per shape).",
     "assumptions": COMMON_ASSUMPTIONS + ["std types with deny-unknown-fields Deserialize impls (Duration, Range) get no unknown fields inserted"],
@@ -906,7 +906,7 @@ CHECKS["C18"] = {
     "sub": "c18",
     "level": "exploration",
     "technique": "runtime monitoring, differential: minicbor::to_vec/decode vs minicbor_serde::to_vec/from_slice on the shared data model",
-    "rule": "values of ~55 types implementing both trait families (integers, bool, char, floats, String, unit, Option, Vec/VecDeque/BTreeSet, arrays to 32, tuples to 12, BTreeMap, Box, Wrapping, NonZero, nested) from the boundary-dense generators: both encoders must give identical bytes, both decoders the original value; then three re-framings of the item (wider heads, indefinite containers, both): a side may reject but neither may return a different value; distinct = hash of (type, bytes)",
+    "rule": "values of ~55 types implementing both trait families (integers, bool, char, floats, String, unit, Option, Vec/VecDeque/BTreeSet, arrays to 32, tuples to 12, BTreeMap, Box, Wrapping, NonZero, nested) from the boundary-dense generators: both encoders must give identical bytes, both decoders the original value; then three re-framings of the item (wider heads, indefinite containers, both): a side may reject but neither may return a different value; distinct = hash of (type, bytes); tuples of every arity 1..=16",
     "level_text": "Each side is the other's oracle on every generated value and re-framing; disagreement on bytes or value is directly observable. Exploration is the right level for a differential property over unbounded value spaces.",
     "level_note": "Trusted: the Subject equality (floats bitwise). Outcome classes for re-framings (both accept / one rejects / both reject) are reported as evidence, only 'different value' is a violation.",
     "assumptions": COMMON_ASSUMPTIONS,
@@ -936,7 +936,7 @@ CHECKS["C09"] = {
     "engine": "vgen",
     "level": "exploration",
     "technique": "runtime monitoring of generated programs: derived Decode of the derived encoding vs view equality, position, provenance of borrowed fields; re-framed and corrupted encodings",
-    "rule": DERIVE_RULE + "; per value: decode(encode(v)) must equal v (skipped fields default), stop at the end, and every &str/&[u8]/&ByteSlice field and every Cow under #[b] must point into the input; re-framings documented as accepted (field containers and collections indefinite, wider heads) must give the same value, all-indefinite re-framings the same value or an error; corrupted encodings (wrong tag, stripped tag on a present value, missing mandatory field, unknown top-level variant) must fail with the documented error class; distinct = hash of (type, bytes)",
+    "rule": DERIVE_RULE + "; per value: decode(encode(v)) must equal v (skipped fields default), stop at the end, and every &str/&[u8]/&ByteSlice field and every Cow under #[b] must point into the input; re-framings documented as accepted (field containers and collections indefinite, wider heads) must give the same value, all-indefinite re-framings the same value or an error; corrupted encodings (wrong tag, stripped tag on a present value, mandatory field missing at top level or in the k-th nested value, unknown top-level variant) must fail with the documented error class; distinct = hash of (type, bytes)",
     "level_text": "Round-trip, exact consumption and zero-copy claims are observed on real derived code for generated programs; the negative cases are produced by editing the reference item tree, so each corruption is exactly one documented failure cause.",
     "level_note": "Trusted: refschema::expected_type / markers for re-framing; pointer-range provenance monitor. Option<Option<_>> decodes Some(None) as None (lossy by construction). A second stage builds 20 definitions the macros reject today (duplicate n/b indices in structs, tuple structs, variants and variant fields; transparent with zero / two / skipped extra fields; index_only with fields, on a struct, with a tag; missing indices; contradictory attributes): each must still fail to build, or, if a changed macro accepts it, pass the program's own self-check (len = bytes written, one well-formed item without duplicate map keys, round trip).",
     "assumptions": COMMON_ASSUMPTIONS,
@@ -949,7 +949,7 @@ CHECKS["C10"] = {
     "engine": "vgen",
     "level": "exploration",
     "technique": "runtime monitoring of generated program pairs: reader result vs a compatibility projection over two schema descriptions",
-    "rule": "version chains: from a random base struct (with an enum used only as an optional field) apply 1-4 documented-compatible edits (rename everything; add an optional field at a new highest index or at a never-used gap index, plain, tagged or with the nil-aware codec; drop an optional field; add a variant, regular or index_only; turn a unit variant into a tuple/struct variant with only optional fields; flip n/b); every ordered pair of versions is checked with all writer values (presence masks + random): the reader must obtain the projection computed from the two schema descriptions, consume everything, also after fields unknown to every version (arbitrary items: nested indefinite containers, indefinite strings, half floats, tags) were injected into the top-level and every nested field container, and also when the evolved type is nested in a struct, a map-encoded struct, an enum variant or a tuple with a sibling after it; control: a reader with an added mandatory field must report missing-value; distinct = hash of (pair, bytes)",
+    "rule": "version chains: from a random base struct (with an enum used only as an optional field) apply 1-4 documented-compatible edits (rename everything; add an optional field at a new highest index or at a never-used gap index, plain, tagged or with the nil-aware codec; drop an optional field; add a variant, regular or index_only; turn a unit variant into a tuple/struct variant with only optional fields; flip n/b); every ordered pair of versions is checked with all writer values (presence masks + random): the reader must obtain the projection computed from the two schema descriptions, consume everything, also after fields unknown to every version (arbitrary items: nested indefinite containers, indefinite strings, half floats, tags) were injected into the top-level and every nested field container, and also when the evolved type is nested in a struct, a map-encoded struct, an enum variant or a tuple with a sibling after it; control: a reader with an added mandatory field must report missing-value; distinct = hash of (pair, bytes); three chains start from a unit-syntax struct; forced chains carry a pass-through codec on the optional enum field and end with an added variant",
     "level_text": "Compatibility is a property of pairs of programs; the generator derives version chains by the documented edits, compiles every version with the real macros and compares what the reader obtains with a projection computed only from the two schema descriptions. Nesting with a trailing sibling makes mis-consumed input observable.",
     "level_note": "Trusted: refschema::project. Indices are never reused with another meaning along a chain (that would not be a compatible change).",
     "assumptions": COMMON_ASSUMPTIONS,
@@ -962,7 +962,7 @@ CHECKS["C20"] = {
     "engine": "vmain+vcfg",
     "level": "exploration",
     "technique": "runtime monitoring, differential across builds: six separately compiled feature configurations run as servers, an online monitor compares (class, value digest, position, error position) per operation and input and accepts only the documented differences",
-    "rule": "inputs: all byte strings of length <= 2, the structured head sweep (every initial byte x argument width x boundary argument x filler), all item trees with <= 3 (quick) / 4 (thorough) nodes bare and inside a definite array, valid encodings of the derived and serde types defined in the probe and their variations (truncations, wider heads, indefinite containers, unknown fields holding indefinite containers / half floats / indefinite strings, replaced leaves, byte mutants), random trees, shape-directed items, items dense in half floats and nested indefinite containers, random bytes; each input goes to every operation of every configuration (~130 operations without alloc, ~190 with std+half: accessors, iterators, skip, probe, tokens, display, encoder methods, typed decode + re-encode + len of the built-in types, derived types, serde deserialize + serialize incl. deserialize_any, ignored_any, collect_str); distinct = enumerated inputs + distinct hashed generated inputs",
+    "rule": "inputs: all byte strings of length <= 2, the structured head sweep (every initial byte x argument width x boundary argument x filler), all item trees with <= 3 (quick) / 4 (thorough) nodes bare and inside a definite array, valid encodings of the derived and serde types defined in the probe and their variations (truncations, wider heads, indefinite containers, unknown fields holding indefinite containers / half floats / indefinite strings, replaced leaves, byte mutants), random trees, shape-directed items, items dense in half floats and nested indefinite containers, random bytes; each input goes to every operation of every configuration (~130 operations without alloc, ~190 with std+half: accessors, iterators, skip, probe, tokens, display, encoder methods, typed decode + re-encode + len of the built-in types, derived types, serde deserialize + serialize incl. deserialize_any, ignored_any, collect_str); distinct = enumerated inputs + distinct hashed generated inputs; serde collect_seq / collect_map with exact, inexact and unknown size hints; a visitor behind deserialize_any that accepts only borrowed data",
     "level_text": "The property quantifies over builds, so the workload is the same deterministic corpus run through separately compiled binaries (Cargo feature unification makes this impossible inside one test run); every pair of configurations sharing an operation is compared on every input, and a difference is accepted only if it matches one of the four documented rules, each with a necessary condition checked on the input (refusal text + an indefinite head after a definite one; error positioned at 0xf9; serde type error positioned at 0x5f/0x7f; the collect_str operation). Exploration with a differential oracle is the right level: the input space is unbounded and each configuration is the others' reference.",
     "level_note": "Trusted: the probe's operation table (harness/vcfg) is the same source in every configuration, gated by the same cfgs as the library. Error texts are never compared (documented to differ); display output is compared up to the inline error marker. The probe is built without the verification cfg. 32-bit targets are not executed.",
     "assumptions": COMMON_ASSUMPTIONS + ["the probe binaries use std for I/O only; minicbor, minicbor-serde and serde are compiled with exactly the features of the configuration"],
